@@ -53,7 +53,7 @@ pub fn codec_case(case: &Value, dispatch: Dispatch, r: &mut Report) {
     let hash = case["hash"].as_bool().unwrap_or(false);
     let derived = case["derived"].as_bool().unwrap_or(false);
     let transient = case["transient"].as_bool().unwrap_or(false);
-    let mut extra: Vec<&str> = Vec::new();
+    let mut extra: Vec<&str> = case.get("props").and_then(|p| p.as_array()).map(|a| a.iter().filter_map(|x| x.as_str()).collect()).unwrap_or_default();
     if derived { extra.push("C02"); }
     if transient { extra.push("C14"); }
     let perms: Vec<Vec<u8>> = case["perms"].as_array().map(|a| a.iter().map(bytes_of).collect()).unwrap_or_default();
@@ -140,14 +140,14 @@ pub fn codec_case(case: &Value, dispatch: Dispatch, r: &mut Report) {
         }
         // C01: decode(encode(v)) == v
         let mut p = vec![if derived { "C02" } else { "C01" }];
-        if transient { p.push("C14"); }
+        p.extend(extra.iter());
         expect_dec(ops, real, &want, 0, "roundtrip", &p, r);
     }
 
     // --- the specification's bytes decode to the value (C04 converse direction)
     {
         let mut p = vec!["C04", if derived { "C02" } else { "C01" }];
-        if transient { p.push("C14"); }
+        p.extend(extra.iter());
         expect_dec(ops, &b, &want, 0, "dec_spec_bytes", &p, r);
     }
     for p in &perms {
